@@ -40,6 +40,7 @@ type CheckReport struct {
 	SolverTime   float64
 	ByBackend    map[string]int
 	Bounded      []string
+	KnownHit     []string
 }
 
 func loadKnownFindings() []KnownFinding {
@@ -173,7 +174,13 @@ func runCheck(prop, tier string, overlay map[string][]byte, quiet bool) (int, *C
 			if !hasProp(lm.Props, prop) || lm.Axiom {
 				continue
 			}
-			o, err := eng.lemmaObligation(lp, lm)
+			var o *Obligation
+			var err error
+			if lm.BV {
+				o, err = eng.bvLemmaObligation(lp, lm)
+			} else {
+				o, err = eng.lemmaObligation(lp, lm)
+			}
 			if err != nil {
 				rep.EngineErrors = append(rep.EngineErrors, err.Error())
 				continue
@@ -272,6 +279,7 @@ func report(rep *CheckReport, quiet bool) int {
 		os.MkdirAll(filepath.Join(verifRoot, "replay", prop), 0o755)
 	}
 	nObl, nDis := 0, 0
+	var knownHit []string
 	var samples []any
 	for _, m := range rep.EngineErrors {
 		// a function that could be encoded on the unchanged tree and no longer can: its
@@ -319,6 +327,9 @@ func report(rep *CheckReport, quiet bool) int {
 		case "failed", "undecided":
 			if kf := isKnown(o.Name); kf != nil {
 				say("KNOWN-FINDING: property=%s %s\n", prop, kf.What)
+				// a listed finding is reported, not counted among the obligations expected to discharge
+				nObl--
+				knownHit = append(knownHit, o.Name+": "+kf.What)
 				continue
 			}
 			violations++
@@ -349,6 +360,7 @@ func report(rep *CheckReport, quiet bool) int {
 			prop, nObl, nDis, violations, len(rep.Functions), rep.Wall)
 	}
 	if !dryRun {
+		rep.KnownHit = knownHit
 		writeEvidence(rep, nObl, nDis, violations, samples)
 	}
 	if engineErr {
@@ -431,6 +443,7 @@ func writeEvidence(rep *CheckReport, nObl, nDis, violations int, samples []any) 
 			"samples":                  samples,
 			"anchor_missing":           rep.AnchorMiss,
 			"bounded":                  rep.Bounded,
+			"known_findings_reported":  rep.KnownHit,
 			"contract_binding_missing": rep.Missing,
 			"engine_errors":            rep.EngineErrors,
 		},
